@@ -146,8 +146,11 @@ class Derivation:
                 while cond[0] == "not":
                     cond, branch = cond[1], not branch
                 if cond[0] == "islet" and not cond[1].startswith(("Some(", "Ok(", "Err(")) and cond[1].rsplit("::", 1)[-1] not in ("None", "_"):
-                    if branch:
+                    if branch and "|" not in cond[1]:
                         self.force_variant[shape_str(cond[2])] = cond[1].split("(")[0].split("{")[0].rsplit("::", 1)[-1].strip()
+                    else:
+                        # `the value is not this variant` (or: is one of several): decided as a condition of its own
+                        self.force.setdefault(shape_str(cond), branch)
                 elif cond[0] == "call" and str(cond[1]).rsplit("::", 1)[-1] == "is_empty" and cond[2]:
                     # the way to the site asks for this collection to be empty / not empty: that is a matter of how many elements it gets
                     (self.force_empty if branch else self.force_star).add(shape_str(cond[2][0]))
